@@ -647,12 +647,20 @@ theorem sum_owner_counts_all (l : List (Nat × Nat)) (k : Nat) (h : ∀ e ∈ l,
   rw [List.filter_eq_self]
   intro e he; simp [h e he]
 
-theorem map_getElem?_range (l : List Nat) :
-    (List.range l.length).map (fun t => match l[t]? with | some n => n | none => 0) = l := by
+theorem map_reqOf_range (l : List Nat) : (List.range l.length).map (reqOf l) = l := by
   apply List.ext_getElem
   · simp
   · intro i h1 h2
     simp at h1
-    simp [h1]
+    simp [reqOf, h1]
+
+theorem reqOf_some {l : List Nat} {t n : Nat} (h : l[t]? = some n) : reqOf l t = n := by
+  simp [reqOf, h]
+
+theorem reqOf_lt {l : List Nat} {t : Nat} (h : reqOf l t ≠ 0) : t < l.length := by
+  apply Classical.byContradiction
+  intro hge
+  have : l[t]? = none := List.getElem?_eq_none (by omega)
+  simp [reqOf, this] at h
 
 end Interleave
